@@ -124,7 +124,6 @@ func newMailbox(cfg string) actor.Mailbox {
 	case "segmented":
 		// the case names the segment size its model run assumes; it must be the real constant
 		if c, ok := num(1); ok && c == actor.VerifSegmentSize() {
-			actor.VerifResetSegmentPool()
 			return actor.NewUnboundedSegmentedMailbox()
 		}
 	case "fair":
@@ -200,7 +199,7 @@ func runSeq(line string) string {
 }
 
 func main() {
-	// one P and no background GC: sync.Pool (segment pool, sender-node pool) is then a
+	// one P and no background GC: sync.Pool (the fair mailbox's sender-node pool) is then a
 	// deterministic function of the Put/Get sequence of the case itself.
 	runtime.GOMAXPROCS(1)
 	debug.SetGCPercent(-1)
